@@ -213,15 +213,32 @@ FSV_DEF__ZNKSt8__detail20_Prime_rehash_policy14_M_need_rehashEmmm({
 #endif
 
 #ifdef FSV_DEF_fsvx_pow
-/* pow: cbmc has no model.  Contract-constrained nondeterministic stub, consistent within one run (same arguments give
-   the same result): pow(x,0)=1, pow(x,1)=x, pow(1,y)=1, pow(+0,y>0)=+0, x>=0 => result >= 0 and not NaN for finite y,
-   monotone non-decreasing in x >= 0 for y > 0 (weakly, as any faithful libm is on these small tables).
+/* pow: cbmc has no model.  Exact for exponent 0 and 1 (C standard).  Otherwise a nondeterministic value constrained by
+   the contract (x >= 0 and finite y: result >= 0, not NaN; pow(+0, y>0) = +0), consistent within one run:
+   - default: memo table keyed by the argument values (same arguments -> same result, monotone in x for y > 0);
+   - FSV_POW_SEQ: "uninterpreted function by call sequence": the k-th call returns the k-th element of a symbolic array
+     and records its arguments; the harness oracle consumes the same array by index (FSV_POW_NTH) and ASSERTS that its
+     arguments equal the recorded ones, so no floating-point comparison sits on the data path.
    Native builds call the real pow. */
 #ifdef __CPROVER__
 #ifndef FSV_POW_MAX
 #define FSV_POW_MAX 12
 #endif
 #include "fsv_harness.h"
+#ifdef FSV_POW_SEQ
+fsv_f64 fsv_pow_val[FSV_POW_MAX], fsv_pow_ax[FSV_POW_MAX], fsv_pow_ay[FSV_POW_MAX];
+int fsv_pow_calls = 0;
+FSV_DEF_fsvx_pow({
+  if (a1 == 1.0) return a0;
+  if (a1 == 0.0) return 1.0;
+  __CPROVER_assert(fsv_pow_calls < FSV_POW_MAX, "FSV: pow stub table large enough");
+  int k = fsv_pow_calls < FSV_POW_MAX ? fsv_pow_calls : FSV_POW_MAX - 1;
+  fsv_pow_calls++;
+  fsv_pow_ax[k] = a0; fsv_pow_ay[k] = a1;
+  fsv_f64 r = fsv_pow_val[k];
+  if (a0 >= 0.0 && FSV_ISFINITE(a1)) __CPROVER_assume(r == r && r >= 0.0);
+  return r; })
+#else
 static fsv_f64 fsv_pow_x[FSV_POW_MAX], fsv_pow_y[FSV_POW_MAX], fsv_pow_r[FSV_POW_MAX];
 static int fsv_pow_n = 0;
 FSV_DEF_fsvx_pow({
@@ -229,9 +246,7 @@ FSV_DEF_fsvx_pow({
   if (a1 == 0.0) return 1.0;
   for (int i = 0; i < FSV_POW_MAX; i++) if (i < fsv_pow_n && fsv_pow_x[i] == a0 && fsv_pow_y[i] == a1) return fsv_pow_r[i];
   fsv_f64 r = FSV_NONDET_F64();
-  if (a1 == 0.0) __CPROVER_assume(r == 1.0);
-  else if (a1 == 1.0) __CPROVER_assume(r == a0 || (a0 != a0 && r != r));
-  else if (a0 == 1.0) __CPROVER_assume(r == 1.0);
+  if (a0 == 1.0) __CPROVER_assume(r == 1.0);
   else if (a0 >= 0.0 && FSV_ISFINITE(a1)) {
     __CPROVER_assume(r == r && r >= 0.0);
     if (a0 == 0.0 && a1 > 0.0) __CPROVER_assume(r == 0.0);
@@ -243,6 +258,7 @@ FSV_DEF_fsvx_pow({
   __CPROVER_assert(fsv_pow_n < FSV_POW_MAX, "FSV: pow stub table large enough");
   if (fsv_pow_n < FSV_POW_MAX) { fsv_pow_x[fsv_pow_n] = a0; fsv_pow_y[fsv_pow_n] = a1; fsv_pow_r[fsv_pow_n] = r; fsv_pow_n++; }
   return r; })
+#endif
 #else
 FSV_DEF_fsvx_pow({ return pow(a0, a1); })
 #endif
